@@ -149,6 +149,14 @@ func c16(c *an.Ctx) {
 				ret := e.(*ssa.Return)
 				v := an.StripConv(ret.Results[0])
 				o.Site(e)
+				// one of the two may simply hand its error to the other, whose returns are checked here too
+				if call, ok := v.(*ssa.Call); ok {
+					if g := call.Call.StaticCallee(); g != nil && g != fn && an.RelPkg(g) == gq && (g.Name() == "nestPathError" || g.Name() == "nestPathErrorMulti") && len(call.Call.Args) == 2 && call.Call.Args[1] == ssa.Value(errParam) {
+						nSan++
+						nWrap += 2
+						continue
+					}
+				}
 				if ex, ok := v.(*ssa.Extract); ok {
 					ta, ok := ex.Tuple.(*ssa.TypeAssert)
 					if ok && ta.X == errParam && ex.Index == 0 && types.TypeString(ta.AssertedType, nil) == gqPath()+".SanitizedError" {
